@@ -645,7 +645,13 @@ impl<'a> Gen<'a> {
         }
     }
     pub fn ratio(&mut self) -> (i32, i32) {
-        match self.rng.below(6) {
+        // the whole range `GlueRatio` can hold: small, around the dimension limit 16384, up to and
+        // beyond the display cap 20000, non-terminating fractions, negative, zero denominators
+        match self.rng.below(10) {
+            6 => (self.rng.range(16000, 21000) as i32, 1),
+            7 => (self.rng.range(1, i32::MAX as i64) as i32, self.rng.range(1, 70000) as i32),
+            8 => (*self.rng.pick(&[16383, 16384, 19999, 20000, 20001, 32767, 32768, i32::MAX, -20000]), *self.rng.pick(&[1, 3, 7, -1])),
+            9 => (self.rng.range(-(1 << 20), 1 << 20) as i32, *self.rng.pick(&[0, 1, 3, 65536, -65536])),
             0 => (0, 1),
             1 => (self.rng.range(0, 1 << 20) as i32, 65536),
             2 => (self.rng.range(-100000, 100000) as i32, self.rng.range(1, 100000) as i32),
